@@ -261,6 +261,9 @@ pub struct Case {
     pub rec: Rec,
     pub thread: Option<String>,
     pub script: Vec<u8>,
+    /// run on a thread without a name: the `thread` field is then null
+    #[serde(default)]
+    pub unnamed_thread: bool,
 }
 
 pub fn strategy() -> impl Strategy<Value = Case> {
@@ -276,11 +279,13 @@ pub fn strategy() -> impl Strategy<Value = Case> {
         ),
         prop::option::weighted(0.3, jtext().prop_filter("thread names cannot hold NUL", |s| !s.contains('\0'))),
         crate::pat::write_script(),
+        prop::bool::weighted(0.1),
     )
-        .prop_map(|((level, msg, target, module, file, line, mdc), thread, script)| Case {
+        .prop_map(|((level, msg, target, module, file, line, mdc), thread, script, unnamed_thread)| Case {
             rec: Rec { level, msg, target, module, file, line, mdc },
             thread,
             script,
+            unnamed_thread,
         })
 }
 
@@ -346,7 +351,7 @@ fn check_on_thread(case: &Case, obs: &mut Obs, thread_name: Option<&str>) -> Cas
     }
     match thread_name {
         Some(n) => want_str("thread", n)?,
-        None => {}
+        None => ensure!(get(o, "thread") == Some(&J::Null), "C12:field:thread", "unnamed thread: field `thread` is {:?}, expected null", get(o, "thread")),
     }
     ensure!(
         get(o, "thread_id") == Some(&J::Num(thread_id::get().to_string())),
@@ -406,6 +411,17 @@ fn check_on_thread(case: &Case, obs: &mut Obs, thread_name: Option<&str>) -> Cas
 }
 
 pub fn check(case: &Case, obs: &mut Obs) -> CaseResult {
+    if case.unnamed_thread {
+        let mut inner = Obs::default();
+        let r = std::thread::scope(|s| s.spawn(|| check_on_thread(case, &mut inner, None)).join());
+        obs.nontrivial = inner.nontrivial;
+        obs.classes.append(&mut inner.classes);
+        obs.class("unnamed-thread");
+        return match r {
+            Ok(r) => r,
+            Err(_) => fail("C12:harness-panic", "check thread panicked"),
+        };
+    }
     match &case.thread {
         None => check_on_thread(case, obs, Some("main")),
         Some(name) => {
